@@ -64,6 +64,8 @@ type Unit struct {
 	usedExterns map[string]bool
 	usedAssumes []string
 	inlined  map[string]bool
+	goneLoops map[int]bool // loops the contract names that the function no longer has
+	notes    []string
 	havocked map[string]bool // callees havocked without contract
 	bvMode   bool
 	specDefs map[string]string
